@@ -1,15 +1,27 @@
 (* Conv.v -- Core B, nested: structure / unstructure of Converter and BaseConverter over type
    expressions and values, fuel-indexed (OutOfFuel is not a Python error and is excluded by every
    theorem).  Class positions use the class templates of Templates.v with the recursive calls as
-   per-attribute handlers.  Executable; no proofs. *)
+   per-attribute handlers.  Detailed validation builds the full exception tree (every failing
+   element / attribute, with its note).  Executable; no proofs. *)
 From V.Model Require Import Base Templates.
 
 Inductive prim := PInt | PFloat | PStr | PBytes | PBool.
+
+(* a value: atoms carry their exact class k and an equality-class id e (1, True, 1.0 share e) *)
+Inductive val :=
+| VNone
+| VAtom (k : prim) (e : N)
+| VEnum (en i : N)            (* member i of enum en *)
+| VList (l : list val) | VTuple (l : list val)
+| VSet (l : list val) | VFrozenSet (l : list val)    (* elements in iteration order, pairwise not == *)
+| VDict (kvs : list (val * val))                     (* insertion order, keys pairwise not == *)
+| VInst (c : N) (fs : list (N * val)).
 
 Inductive ty :=
 | TAny
 | TPrim (p : prim)
 | TEnum (e : N)
+| TLit (vs : list val)        (* Literal[...] of None / bool / int / str / bytes values *)
 | TList (t : ty)              (* list / List / Sequence / MutableSequence *)
 | TTupleHom (t : ty)          (* tuple[T, ...] *)
 | TTuple (ts : list ty)       (* tuple[A, B, C] *)
@@ -20,16 +32,6 @@ Inductive ty :=
 | TNewType (n : N) (t : ty)
 | TAnnot (t : ty).
 
-(* a value: atoms carry their exact class k and an equality-class id e (1, True, 1.0 share e) *)
-Inductive val :=
-| VNone
-| VAtom (k : prim) (e : N)
-| VEnum (en i : N)            (* member i of enum en *)
-| VList (l : list val) | VTuple (l : list val)
-| VSet (l : list val) | VFrozenSet (l : list val)    (* kept duplicate-free in canonical order *)
-| VDict (kvs : list (val * val))
-| VInst (c : N) (fs : list (N * val)).
-
 Definition prim_eqb (a b : prim) : bool :=
   match a, b with PInt, PInt | PFloat, PFloat | PStr, PStr | PBytes, PBytes | PBool, PBool => true | _, _ => false end.
 Definition prim_rank (p : prim) : N := match p with PBool => 1 | PInt => 2 | PFloat => 3 | PStr => 4 | PBytes => 5 end.
@@ -37,7 +39,12 @@ Definition prim_rank (p : prim) : N := match p with PBool => 1 | PInt => 2 | PFl
 (* Python == *)
 Fixpoint val_eqb (a b : val) : bool :=
   let fix list_eqb (x y : list val) : bool :=
-    match x, y with [], [] => true | u :: x', w :: y' => val_eqb u w && list_eqb x' y' | _, _ => false end in
+    match x, y with [] , [] => true | u :: x', w :: y' => val_eqb u w && list_eqb x' y' | _, _ => false end in
+  let fix sub (x y : list val) : bool :=
+    match x with
+    | [] => true
+    | u :: x' => (fix mem (y' : list val) : bool := match y' with [] => false | w :: r => val_eqb u w || mem r end) y && sub x' y
+    end in
   let fix kv_sub (x y : list (val * val)) : bool :=
     match x with
     | [] => true
@@ -52,31 +59,45 @@ Fixpoint val_eqb (a b : val) : bool :=
   | VAtom _ e, VAtom _ f => N.eqb e f
   | VEnum en i, VEnum em j => N.eqb en em && N.eqb i j
   | VList x, VList y | VTuple x, VTuple y => list_eqb x y
-  | VSet x, VSet y | VFrozenSet x, VFrozenSet y | VSet x, VFrozenSet y | VFrozenSet x, VSet y => list_eqb x y
+  | VSet x, VSet y | VFrozenSet x, VFrozenSet y | VSet x, VFrozenSet y | VFrozenSet x, VSet y =>
+      Nat.eqb (length x) (length y) && sub x y
   | VDict x, VDict y => Nat.eqb (length x) (length y) && kv_sub x y
   | VInst c x, VInst d y => N.eqb c d && fs_eqb x y
   | _, _ => false
   end.
 
-(* canonical order of set elements: atoms and enum members by (class rank, equality id) *)
-Definition val_key (v : val) : N * N :=
+(* hash(v) works *)
+Fixpoint hashable (v : val) : bool :=
   match v with
-  | VNone => (0, 0) | VAtom k e => (prim_rank k, e) | VEnum en i => (6 + en, i) | _ => (1000, 0)
-  end%N.
-Definition key_ltb (a b : N * N) : bool := N.ltb (fst a) (fst b) || (N.eqb (fst a) (fst b) && N.ltb (snd a) (snd b)).
-Fixpoint set_insert (v : val) (l : list val) : list val :=
-  match l with
-  | [] => [v]
-  | x :: r => if val_eqb x v then l else if key_ltb (val_key v) (val_key x) then v :: l else x :: set_insert v r
+  | VNone | VAtom _ _ | VEnum _ _ => true
+  | VTuple l => forallb hashable l
+  | VFrozenSet _ => true
+  | VList _ | VSet _ | VDict _ => false
+  | VInst _ _ => false                      (* attrs classes / dataclasses with eq=True and not frozen *)
   end.
-Definition canon_set (l : list val) : list val := fold_left (fun acc v => set_insert v acc) l [].
 
-(* d[k] = v with Python key equality *)
+Definition vmem (v : val) (l : list val) : bool := existsb (val_eqb v) l.
+
+(* s.add(v) *)
+Definition set_add (l : list val) (v : val) : result (list val) :=
+  if negb (hashable v) then Err EType else Ok (if vmem v l then l else l ++ [v]).
+
+Fixpoint set_of_list (acc : list val) (l : list val) : result (list val) :=
+  match l with [] => Ok acc | v :: r => do acc' <- set_add acc v; set_of_list acc' r end.
+
+(* d[k] = v with Python key equality: overwrite in place keeping the first key object, else append *)
 Fixpoint vdict_set (d : list (val * val)) (k v : val) : list (val * val) :=
   match d with
   | [] => [(k, v)]
   | (k', v') :: r => if val_eqb k' k then (k', v) :: r else (k', v') :: vdict_set r k v
   end.
+Definition dict_put (d : list (val * val)) (k v : val) : result (list (val * val)) :=
+  if negb (hashable k) then Err EType else Ok (vdict_set d k v).
+Fixpoint dict_of_pairs (acc : list (val * val)) (l : list (val * val)) : result (list (val * val)) :=
+  match l with [] => Ok acc | (k, v) :: r => do acc' <- dict_put acc k v; dict_of_pairs acc' r end.
+
+Fixpoint vassoc (d : list (val * val)) (k : val) : option val :=
+  match d with [] => None | (k', v) :: r => if val_eqb k' k then Some v else vassoc r k end.
 
 Fixpoint map_res {A B} (f : A -> result B) (l : list A) : result (list B) :=
   match l with
@@ -100,57 +121,76 @@ Record env := {
 
 Record ccfg := { c_gen : bool;      (* Converter (generated class hooks) vs BaseConverter *)
                  c_dv : bool;       (* detailed_validation *)
+                 c_tuple : bool;    (* unstruct_strat = AS_TUPLE *)
                  c_forbid : bool;   (* Converter(forbid_extra_keys=...) *)
                  c_recheck : bool; c_kw_last : bool   (* template flags from T1 *) }.
+
+(* the note of a failing element: its index, or the key it was filed under *)
+Definition key_note (k : val) : N :=
+  match k with
+  | VNone => 0
+  | VAtom p e => 8 * e + prim_rank p
+  | VEnum en i => 8 * (1000 * (en + 1) + i) + 6
+  | _ => 7
+  end%N.
 
 Section Conv.
 Variable E : env.
 Variable cfg : ccfg.
 
-Definition skey (k : N) : val := VAtom PStr k.     (* attribute names are interned strings *)
+Definition skey (k : N) : val := VAtom PStr k.     (* attribute names are interned strings (ids >= 1) *)
+Definition key_id (k : val) : N := match k with VAtom PStr e => e | _ => 0%N end.
+Definition nkeys (kvs : list (val * val)) : list (N * val) := map (fun kv => (key_id (fst kv), snd kv)) kvs.
 
 Definition iter_val (o : val) : result (list val) :=
   match o with
   | VList l | VTuple l | VSet l | VFrozenSet l => Ok l
   | VDict kvs => Ok (map fst kvs)
-  | VInst _ _ => Err EType
-  | _ => e_iter E o
+  | VInst _ _ | VNone | VEnum _ _ => Err EType
+  | VAtom _ _ => e_iter E o
   end.
 
 Definition len_val (o : val) : result nat :=
   match o with
   | VList l | VTuple l | VSet l | VFrozenSet l => Ok (length l)
   | VDict kvs => Ok (length kvs)
-  | VInst _ _ => Err EType
-  | _ => e_len E o
+  | VInst _ _ | VNone | VEnum _ _ => Err EType
+  | VAtom _ _ => e_len E o
   end.
 
-Fixpoint vassoc (d : list (val * val)) (k : val) : option val :=
-  match d with [] => None | (k', v) :: r => if val_eqb k' k then Some v else vassoc r k end.
+(* o.items() *)
+Definition items_val (o : val) : result (list (val * val)) :=
+  match o with VDict kvs => Ok kvs | _ => Err EAttr end.
 
-Definition key_id (k : val) : N := match k with VAtom PStr e => e | _ => 0%N end.
+(* dict(o) *)
+Definition pair_of (e : val) : result (val * val) :=
+  do l <- iter_val e;
+  match l with [k; v] => Ok (k, v) | _ => Err EValue end.
+Definition dict_val (o : val) : result val :=
+  match o with
+  | VDict kvs => Ok (VDict kvs)
+  | _ => do l <- iter_val o; do ps <- map_res pair_of l; do d <- dict_of_pairs [] ps; Ok (VDict d)
+  end.
 
 (* a payload value seen through the operations the class hooks perform on it *)
 Definition obj_of_val (o : val) : pobj val :=
   match o with
-  | VDict kvs =>
-      {| o_in := fun k => Ok (match vassoc kvs (skey k) with Some _ => true | None => false end);
-         o_get := fun k => match vassoc kvs (skey k) with Some v => Ok v | None => Err EKey end;
-         o_keys := Ok (map (fun kv => key_id (fst kv)) kvs);
-         o_iter := Ok (map fst kvs);
-         o_is_mapping := true;
-         o_copy := Err EOther |}
+  | VDict kvs => dict_obj (nkeys kvs)
   | VList l | VTuple l | VSet l | VFrozenSet l =>
-      {| o_in := fun k => Ok (existsb (val_eqb (skey k)) l);
+      {| o_in := fun k => Ok (vmem (skey k) l);
          o_get := fun _ => Err EType;
          o_keys := Err EAttr; o_iter := Ok l; o_is_mapping := false; o_copy := Err EOther |}
-  | VInst _ _ =>
+  | VInst _ _ | VNone | VEnum _ _ =>
       {| o_in := fun _ => Err EType; o_get := fun _ => Err EType; o_keys := Err EAttr; o_iter := Err EType;
          o_is_mapping := false; o_copy := Err EOther |}
-  | _ =>
+  | VAtom _ _ =>
       {| o_in := fun k => e_in E o k; o_get := fun _ => Err EType; o_keys := Err EAttr; o_iter := e_iter E o;
          o_is_mapping := false; o_copy := Err EOther |}
   end.
+(* the same object for the tuple template, which iterates it (a dict yields its keys) *)
+Definition seq_obj_of_val (o : val) : pobj val :=
+  {| o_in := fun _ => Err EOther; o_get := fun _ => Err EOther; o_keys := Err EOther;
+     o_iter := iter_val o; o_is_mapping := false; o_copy := Err EOther |}.
 
 Definition noK (n : N) (v : val) : result val := Ok v.       (* the nested universe has no field converters *)
 Definition topt (c : N) : topts :=
@@ -161,14 +201,103 @@ Definition find_member (members : list val) (x : val) : option N :=
   (fix go (l : list val) (i : N) : option N :=
      match l with [] => None | m :: r => if val_eqb m x then Some i else go r (N.succ i) end) members 0%N.
 
-Definition wrap_iter (r : result (list val)) : result (list val) :=
-  match r with Err e => if c_dv cfg then Err (EIterVal [(None, e)]) else Err e | _ => r end.
+(* the element loop of a collection hook.
+   fast mode: a comprehension, the first exception propagates;
+   detailed mode: every element is tried, failures are collected with the element's index. *)
+Fixpoint coll_fast (f : val -> result val) (l : list val) : result (list val) :=
+  match l with
+  | [] => Ok []
+  | x :: r => do y <- f x; do ys <- coll_fast f r; Ok (y :: ys)
+  end.
 
-Fixpoint zip_res (f : ty -> val -> result val) (ts : list ty) (l : list val) : result (list val) :=
+Fixpoint coll_det (f : val -> result val) (l : list val) (ix : N) (acc : list val) (errs : list (option N * errkind))
+  : result (list val * list (option N * errkind)) :=
+  match l with
+  | [] => Ok (acc, errs)
+  | x :: r =>
+      match f x with
+      | Ok y => coll_det f r (N.succ ix) (acc ++ [y]) errs
+      | Err e => coll_det f r (N.succ ix) acc (errs ++ [(Some ix, e)])
+      | OutOfFuel => OutOfFuel
+      end
+  end.
+
+Definition coll (f : val -> result val) (l : list val) : result (list val) :=
+  if c_dv cfg then
+    do re <- coll_det f l 0%N [] [];
+    match snd re with [] => Ok (fst re) | errs => Err (EIterVal errs) end
+  else coll_fast f l.
+
+(* sets in detailed mode: res.add(handler(e)) sits inside the try *)
+Fixpoint set_det (f : val -> result val) (l : list val) (ix : N) (acc : list val) (errs : list (option N * errkind))
+  : result (list val * list (option N * errkind)) :=
+  match l with
+  | [] => Ok (acc, errs)
+  | x :: r =>
+      match (do y <- f x; set_add acc y) with
+      | Ok acc' => set_det f r (N.succ ix) acc' errs
+      | Err e => set_det f r (N.succ ix) acc (errs ++ [(Some ix, e)])
+      | OutOfFuel => OutOfFuel
+      end
+  end.
+
+Definition set_coll (f : val -> result val) (l : list val) : result (list val) :=
+  if c_dv cfg then
+    do re <- set_det f l 0%N [] [];
+    match snd re with [] => Ok (fst re) | errs => Err (EIterVal errs) end
+  else do ys <- coll_fast f l; set_of_list [] ys.
+
+(* heterogeneous tuples: zip(types, elements) *)
+Fixpoint zip_fast (f : ty -> val -> result val) (ts : list ty) (l : list val) : result (list val) :=
   match ts, l with
-  | t :: ts', x :: l' => do y <- f t x; do ys <- zip_res f ts' l'; Ok (y :: ys)
+  | t :: ts', x :: l' => do y <- f t x; do ys <- zip_fast f ts' l'; Ok (y :: ys)
   | _, _ => Ok []
   end.
+Fixpoint zip_det (f : ty -> val -> result val) (ts : list ty) (l : list val) (ix : N) (acc : list val) (errs : list (option N * errkind))
+  : result (list val * list (option N * errkind)) :=
+  match ts, l with
+  | t :: ts', x :: l' =>
+      match f t x with
+      | Ok y => zip_det f ts' l' (N.succ ix) (acc ++ [y]) errs
+      | Err e => zip_det f ts' l' (N.succ ix) acc (errs ++ [(Some ix, e)])
+      | OutOfFuel => OutOfFuel
+      end
+  | _, _ => Ok (acc, errs)
+  end.
+
+(* mappings.  detailed: value first, then key and the assignment, each in its own try, note = the key;
+   fast: a dict comprehension (key, then value, then the insertion) *)
+Fixpoint map_det (fk fv : val -> result val) (kvs : list (val * val)) (acc : list (val * val)) (errs : list (option N * errkind))
+  : result (list (val * val) * list (option N * errkind)) :=
+  match kvs with
+  | [] => Ok (acc, errs)
+  | (k, v) :: r =>
+      match fv v with
+      | OutOfFuel => OutOfFuel
+      | Err e => map_det fk fv r acc (errs ++ [(Some (key_note k), e)])
+      | Ok v' =>
+          match (do k' <- fk k; dict_put acc k' v') with
+          | OutOfFuel => OutOfFuel
+          | Err e => map_det fk fv r acc (errs ++ [(Some (key_note k), e)])
+          | Ok acc' => map_det fk fv r acc' errs
+          end
+      end
+  end.
+Fixpoint map_fast (fk fv : val -> result val) (kvs : list (val * val)) (acc : list (val * val)) : result (list (val * val)) :=
+  match kvs with
+  | [] => Ok acc
+  | (k, v) :: r => do k' <- fk k; do v' <- fv v; do acc' <- dict_put acc k' v'; map_fast fk fv r acc'
+  end.
+Definition map_coll (fk fv : val -> result val) (kvs : list (val * val)) : result (list (val * val)) :=
+  if c_dv cfg then
+    do re <- map_det fk fv kvs [] [];
+    match snd re with [] => Ok (fst re) | errs => Err (EIterVal errs) end
+  else map_fast fk fv kvs [].
+
+Definition nonstr_key (o : val) : bool :=
+  match o with VDict kvs => existsb (fun kv => match fst kv with VAtom PStr _ => false | _ => true end) kvs | _ => false end.
+
+Definition is_any (t : ty) : bool := match t with TAny => true | _ => false end.
 
 Fixpoint structure (n : nat) (t : ty) (o : val) : result val :=
   match n with
@@ -177,36 +306,58 @@ Fixpoint structure (n : nat) (t : ty) (o : val) : result val :=
       match t with
       | TAny => Ok o
       | TPrim p => e_coerce E p o
-      | TEnum en => match find_member (e_enum E en) o with Some i => Ok (VEnum en i) | None => Err EValue end
-      | TList t' => do l <- iter_val o; do r <- wrap_iter (map_res (structure n' t') l); Ok (VList r)
-      | TTupleHom t' => do l <- iter_val o; do r <- wrap_iter (map_res (structure n' t') l); Ok (VTuple r)
-      | TTuple ts =>
-          do l <- iter_val o;
-          do len <- len_val o;
-          if negb (Nat.eqb len (length ts)) then Err (if c_dv cfg then EIterVal [(None, EValue)] else EValue)
-          else do r <- wrap_iter (zip_res (structure n') ts l); Ok (VTuple r)
-      | TSet t' => do l <- iter_val o; do r <- wrap_iter (map_res (structure n' t') l); Ok (VSet (canon_set r))
-      | TFrozenSet t' => do l <- iter_val o; do r <- wrap_iter (map_res (structure n' t') l); Ok (VFrozenSet (canon_set r))
-      | TDict kt vt =>
+      | TEnum en =>
           match o with
-          | VDict kvs =>
-              do r <- wrap_iter (map_res (fun kv => do v <- structure n' vt (snd kv); do k <- structure n' kt (fst kv); Ok (VTuple [k; v])) kvs);
-              Ok (VDict (fold_left (fun d p => match p with VTuple [k; v] => vdict_set d k v | _ => d end) r []))
-          | _ => Err EAttr          (* obj.items() *)
+          | VEnum en' _ => if N.eqb en' en then Ok o else Err EValue      (* EnumCls(member) is the member *)
+          | _ => match find_member (e_enum E en) o with Some i => Ok (VEnum en i) | None => Err EValue end
           end
+      | TLit vs => if vmem o vs then Ok o else Err EOther
+      | TList t' =>
+          do l <- iter_val o;
+          if is_any t' then Ok (VList l) else do r <- coll (structure n' t') l; Ok (VList r)
+      | TTupleHom t' =>
+          do l <- iter_val o;
+          if is_any t' then Ok (VTuple l) else do r <- coll (structure n' t') l; Ok (VTuple r)
+      | TTuple ts =>
+          if c_dv cfg then
+            do l <- iter_val o;
+            do re <- zip_det (structure n') ts l 0%N [] [];
+            do len <- len_val o;
+            let errs := if Nat.eqb len (length ts) then snd re else snd re ++ [(None, EValue)] in
+            match errs with [] => Ok (VTuple (fst re)) | _ => Err (EIterVal errs) end
+          else
+            do len <- len_val o;
+            if negb (Nat.eqb len (length ts)) then Err EValue
+            else do l <- iter_val o; do r <- zip_fast (structure n') ts l; Ok (VTuple r)
+      | TSet t' =>
+          do l <- iter_val o;
+          if is_any t' then do s <- set_of_list [] l; Ok (VSet s) else do s <- set_coll (structure n' t') l; Ok (VSet s)
+      | TFrozenSet t' =>
+          do l <- iter_val o;
+          if is_any t' then do s <- set_of_list [] l; Ok (VFrozenSet s) else do s <- set_coll (structure n' t') l; Ok (VFrozenSet s)
+      | TDict kt vt =>
+          if is_any kt && is_any vt then dict_val o
+          else do kvs <- items_val o; do d <- map_coll (structure n' kt) (structure n' vt) kvs; Ok (VDict d)
       | TOpt t' => match o with VNone => Ok VNone | _ => structure n' t' o end
       | TNewType _ t' => structure n' t' o
-      | TAnnot t' => structure n' t' o
+      | TAnnot t' => if c_gen cfg then structure n' t' o else Err ENotFound    (* BaseConverter has no hook for Annotated *)
       | TClass c =>
           match e_class E c with
           | None => Err ENotFound
           | Some cd =>
               let hs := fun fname v => match assoc (cd_types cd) fname with Some ft => structure n' ft v | None => Ok v end in
-              let r := if c_gen cfg then
-                         if c_dv cfg then tpl_detailed val noK (topt c) nov hs (c_recheck cfg) (cd_fields cd) (obj_of_val o)
-                         else tpl_fast val noK (topt c) nov hs (c_kw_last cfg) (cd_fields cd) (obj_of_val o)
-                       else tpl_interp_dict val noK hs (cd_fields cd) (obj_of_val o) in
-              do i <- r; Ok (VInst c i)
+              let r :=
+                if c_tuple cfg then tpl_interp_tuple val noK hs (cd_fields cd) (seq_obj_of_val o)
+                else if c_gen cfg then
+                  if c_dv cfg then tpl_detailed val noK (topt c) nov hs (c_recheck cfg) (cd_fields cd) (obj_of_val o)
+                  else tpl_fast val noK (topt c) nov hs (c_kw_last cfg) (cd_fields cd) (obj_of_val o)
+                else tpl_interp_dict val noK hs (cd_fields cd) (obj_of_val o) in
+              (* ForbiddenExtraKeysError joins the extra keys into its message: a key that is not a str
+                 makes the constructor itself raise TypeError, whatever else was collected *)
+              let r' := if c_forbid cfg && c_gen cfg && negb (c_tuple cfg) && nonstr_key o then
+                          match r with Err (EForbidden _ _) | Err (EClassVal _ _) => Err EType | _ => r end
+                        else r in
+              do i <- r'; Ok (VInst c i)
           end
       end
   end.
@@ -217,84 +368,90 @@ Definition member_value (en i : N) : result val :=
 
 Definition inst_fields (x : val) : option (list (N * val)) := match x with VInst _ fs => Some fs | _ => None end.
 
+(* the hook chosen for obj.__class__ *)
+Definition rt_type (x : val) : ty :=
+  match x with
+  | VNone => TAny
+  | VAtom k _ => TPrim k
+  | VEnum en _ => TEnum en
+  | VList _ => TList TAny
+  | VTuple _ => TTupleHom TAny
+  | VSet _ => TSet TAny
+  | VFrozenSet _ => TFrozenSet TAny
+  | VDict _ => TDict TAny TAny
+  | VInst c _ => TClass c
+  end.
+
+(* seq.__class__(...) *)
+Definition same_class (x : val) (l : list val) : result val :=
+  match x with
+  | VList _ => Ok (VList l)
+  | VTuple _ => Ok (VTuple l)
+  | VSet _ => do s <- set_of_list [] l; Ok (VSet s)
+  | VFrozenSet _ => do s <- set_of_list [] l; Ok (VFrozenSet s)
+  | _ => Err EOther
+  end.
+
+Definition un_pairs (fk fv : val -> result val) (kvs : list (val * val)) : result (list (val * val)) :=
+  do ps <- map_res (fun kv => do k <- fk (fst kv); do v <- fv (snd kv); Ok (k, v)) kvs;
+  dict_of_pairs [] ps.
+
 Fixpoint unstructure (n : nat) (t : ty) (x : val) : result val :=
   match n with
   | O => OutOfFuel
   | S n' =>
-      let by_class :=
-        (* runtime-class dispatch that knows the class hooks *)
-        (fix rt (m : nat) (y : val) : result val :=
-           match m with
-           | O => OutOfFuel
-           | S m' =>
-               match y with
-               | VInst c _ => unstructure n' (TClass c) y
-               | VList l => do r <- map_res (rt m') l; Ok (VList r)
-               | VTuple l => do r <- map_res (rt m') l; Ok (if c_gen cfg then VList r else VTuple r)
-               | VSet l => do r <- map_res (rt m') l; Ok (VSet (canon_set r))
-               | VFrozenSet l => do r <- map_res (rt m') l; Ok (VFrozenSet (canon_set r))
-               | VDict kvs =>
-                   do r <- map_res (fun kv => do k <- rt m' (fst kv); do v <- rt m' (snd kv); Ok (VTuple [k; v])) kvs;
-                   Ok (VDict (fold_left (fun d p => match p with VTuple [k; v] => vdict_set d k v | _ => d end) r []))
-               | VEnum en i => member_value en i
-               | _ => Ok y
-               end
-           end) n' in
+      let by_class := fun y => match y with VNone => Ok VNone | _ => unstructure n' (rt_type y) y end in
+      let class_case := fun c =>
+        match e_class E c, inst_fields x with
+        | Some cd, Some fs =>
+            let hs := fun fname v => match assoc (cd_types cd) fname with Some ft => unstructure n' ft v | None => by_class v end in
+            if c_tuple cfg then do l <- un_interp_tuple val hs (cd_fields cd) fs; Ok (VTuple l)
+            else if c_gen cfg then
+              do d <- un_gen val val_eqb (topt c) nov hs (cd_fields cd) fs;
+              Ok (VDict (map (fun kv => (skey (fst kv), snd kv)) d))
+            else
+              do d <- un_interp_dict val hs (cd_fields cd) fs;
+              Ok (VDict (map (fun kv => (skey (fst kv), snd kv)) d))
+        | None, _ => Ok x                          (* not an attrs class: the fallback returns the value unchanged *)
+        | _, None => Err EAttr
+        end in
       if c_gen cfg then
         match t with
         | TAny => by_class x
         | TPrim _ => Ok x                                    (* identity, whatever x is *)
+        | TLit _ => Ok x
         | TEnum _ => match x with VEnum en i => member_value en i | _ => Err EAttr end
         | TList t' | TTupleHom t' => do l <- iter_val x; do r <- map_res (unstructure n' t') l; Ok (VList r)
         | TTuple ts =>
             match x with
             | VTuple l | VList l =>
                 if Nat.ltb (length l) (length ts) then Err EOther        (* IndexError *)
-                else do r <- zip_res (unstructure n') ts l; Ok (VTuple r)  (* extra elements are ignored *)
+                else do r <- zip_fast (unstructure n') ts l; Ok (VTuple r)  (* extra elements are ignored *)
             | _ => Err EType
             end
-        | TSet t' => do l <- iter_val x; do r <- map_res (unstructure n' t') l; Ok (VSet (canon_set r))
-        | TFrozenSet t' => do l <- iter_val x; do r <- map_res (unstructure n' t') l; Ok (VFrozenSet (canon_set r))
+        | TSet t' => do l <- iter_val x; do r <- map_res (unstructure n' t') l; do s <- set_of_list [] r; Ok (VSet s)
+        | TFrozenSet t' => do l <- iter_val x; do r <- map_res (unstructure n' t') l; do s <- set_of_list [] r; Ok (VFrozenSet s)
         | TDict kt vt =>
-            match x with
-            | VDict kvs =>
-                do r <- map_res (fun kv => do k <- unstructure n' kt (fst kv); do v <- unstructure n' vt (snd kv); Ok (VTuple [k; v])) kvs;
-                Ok (VDict (fold_left (fun d p => match p with VTuple [k; v] => vdict_set d k v | _ => d end) r []))
-            | _ => Err EAttr
-            end
+            do kvs <- items_val x; do d <- un_pairs (unstructure n' kt) (unstructure n' vt) kvs; Ok (VDict d)
         | TOpt t' => match x with VNone => Ok VNone | _ => unstructure n' t' x end
         | TNewType _ t' => unstructure n' t' x
         | TAnnot t' => unstructure n' t' x
-        | TClass c =>
-            match e_class E c, inst_fields x with
-            | Some cd, Some fs =>
-                let hs := fun fname v => match assoc (cd_types cd) fname with Some ft => unstructure n' ft v | None => by_class v end in
-                do d <- un_gen val val_eqb (topt c) nov hs (cd_fields cd) fs;
-                Ok (VDict (map (fun kv => (skey (fst kv), snd kv)) d))
-            | None, _ => Ok x
-            | _, None => Err EAttr
-            end
+        | TClass c => class_case c
         end
       else
         (* BaseConverter: collections keep their class and go by the runtime class of their elements;
            classes go attribute by attribute, by declared type *)
         match t with
-        | TClass c =>
-            match e_class E c, inst_fields x with
-            | Some cd, Some fs =>
-                let hs := fun fname v => match assoc (cd_types cd) fname with Some ft => unstructure n' ft v | None => by_class v end in
-                do d <- un_interp_dict val hs (cd_fields cd) fs;
-                Ok (VDict (map (fun kv => (skey (fst kv), snd kv)) d))
-            | None, _ => Ok x
-            | _, None => Err EAttr
-            end
+        | TClass c => class_case c
         | TEnum _ => match x with VEnum en i => member_value en i | _ => Err EAttr end
-        | TPrim _ => Ok x
+        | TPrim _ | TLit _ => Ok x
         | TNewType _ _ | TAnnot _ => Ok x      (* no born-with hook: the fallback returns the value unchanged *)
         | TOpt _ | TAny => by_class x             (* is_union_type / Any: runtime class *)
-        | _ => by_class x
+        | TTuple _ => Ok x                        (* is_sequence does not accept heterogeneous tuples: the fallback, unchanged *)
+        | TList _ | TTupleHom _ | TSet _ | TFrozenSet _ =>
+            do l <- iter_val x; do r <- map_res by_class l; same_class x r
+        | TDict _ _ => do kvs <- items_val x; do d <- un_pairs by_class by_class kvs; Ok (VDict d)
         end
   end.
 
 End Conv.
-
